@@ -76,6 +76,8 @@ func init() {
 	reg("C07", "surveyor")
 	reg("C08", "bus")
 	reg("C02", "push")
+	reg("C01", "pub", "bus")  // what the member that stays is given is byte-identical to what was sent
+	reg("C15", "pub")
 	reg("C04", "req")
 }
 
